@@ -122,5 +122,12 @@ func (li *Language) Update(input UpdateInput) error {
 
 	env.Apply(input.Item, aliases, attributes)
 
+	// attributes dropped from the environment by REMOVE must leave the item too
+	for name := range item {
+		if !env.Has(name) {
+			delete(input.Item, name)
+		}
+	}
+
 	return nil
 }
